@@ -812,7 +812,12 @@ func init() {
 				continue
 			}
 			r := c15Execute(sc, fl, k, sched)
-			out, _ := json.MarshalIndent(c15Replay(sc, &r), "", " ")
+			r.Window = c15WindowCount(sched, k, sc.L, sc.C)
+			r.ObsWindow = c15ObservedWindow(r.Trace, k, sc.Lookup, sc.Consume)
+			m := c15Replay(sc, &r)
+			delete(m, "Spec")
+			delete(m, "Ops")
+			out, _ := json.MarshalIndent(m, "", " ")
 			fmt.Println(string(out))
 			if r.Err != "" {
 				fmt.Println("error:", r.Err)
